@@ -395,9 +395,9 @@ Proof.
   assert (Hvals : values_ok ops). { eapply Forall_impl; [|exact Hfacts]. simpl. tauto. }
   assert (Hgas : Forall (fun op => 0 < t_gas (fst op)) ops). { eapply Forall_impl; [|exact Hfacts]. simpl. tauto. }
   destruct (ante_multi e s msgs) as [why|s1] eqn:Ea.
-  { simpl. split; [destruct (why =? 10); exact Hs|].
-    split; [intros _; destruct (why =? 10); simpl; repeat split; lia|]. split; [discriminate|].
-    intros L _ _. destruct (why =? 10); reflexivity. }
+  { simpl. split; [exact Hs|].
+    split; [intros _; repeat split; lia|]. split; [discriminate|].
+    intros L _ _. reflexivity. }
   pose proof (ante_multi_spec e s msgs s1 Ea) as (Ac & Ab & An & Ag & Aw & Af & Aok & Alim & Atot).
   assert (Hfrom : forall L, ops_within_m L ops -> Forall (fun t => In (t_from t) L) msgs).
   { intros L H. unfold msgs. clear - H. induction H as [|op r [H1 _] Hr IH]; simpl; constructor; assumption. }
@@ -508,4 +508,27 @@ Proof.
   destruct (mincluded (snd (deliver_multi e s cg ops))) eqn:Ei.
   - destruct (Hinc eq_refl) as (Hcoll & _). rewrite Hcoll. lia.
   - destruct (Hrej eq_refl) as (_ & _ & Hcoll & _). rewrite Hcoll. lia.
+Qed.
+
+(* a cosmos transaction whose message branch is dropped (a message returned an error, or the block gas meter overflowed)
+   leaves every other store unchanged - whatever earlier messages of it wrote through precompiles or contract code -
+   moves no value, and charges every message its whole gas limit *)
+Lemma dropped_no_ok ops : existsb msg_ok (mm_dropped ops) = false.
+Proof. unfold mm_dropped. induction ops as [|op r IH]; [reflexivity|]. simpl. exact IH. Qed.
+
+Lemma multi_dropped_no_effect e s cg ops :
+  env_ok e = true -> mops_ok ops = true -> state_ok s -> 0 <= cg ->
+  let s' := fst (deliver_multi e s cg ops) in
+  let r := snd (deliver_multi e s cg ops) in
+  mincluded r = true -> mouts r = None ->
+  s_world s' = s_world s /\
+  s_coll s' = s_coll s + zsum (map (fees_of e) (map fst ops)) /\
+  (forall a, aget 0 (s_bal s') a = aget 0 (s_bal s) a - zsum (map (fee_from e a) (map fst ops))).
+Proof.
+  intros He Ho Hs Hcg. pose proof (deliver_multi_spec e s cg ops He Ho Hs Hcg) as H. cbv zeta in *.
+  destruct H as (_ & _ & Hinc & _). intros Hi Hn. specialize (Hinc Hi).
+  destruct (snd (deliver_multi e s cg ops)) as [w| |outs|outs] eqn:Er; try discriminate; simpl mm_of in Hinc;
+    destruct Hinc as (Hc & Hb & _ & _ & Hw & _);
+    (split; [apply Hw; apply dropped_no_ok|]); (split; [rewrite Hc, dropped_fee; reflexivity|]);
+    intro a; rewrite Hb, dropped_delta; lia.
 Qed.
